@@ -136,3 +136,32 @@ def capture_desc(prog, cf, op, depth=4):
                 if idx < len(ops):
                     return decision.describe_deep(par, ops[idx], depth)
     return None
+
+
+def reaching_defs(fn, local):
+    """classic reaching definitions for one local: {block: set of def ids reaching its *end*}, {block: set reaching its entry};
+    a def id is (bb, stmt index or None for a call/yield terminator). Every assignment to the whole local kills the others."""
+    defs = [(d[0], d[1]) for d in fn.defs().get(local, []) if not fn.is_cleanup(d[0]) and (d[2] != "assign" or not d[3]["p"][1])]
+    last_in_block = {}
+    for bb, si in defs:
+        key = si if si is not None else 10 ** 6
+        if bb not in last_in_block or key > last_in_block[bb][0]:
+            last_in_block[bb] = (key, (bb, si))
+    live = sorted(fn.live_blocks())
+    IN = {b: set() for b in live}
+    OUT = {b: set() for b in live}
+    changed = True
+    while changed:
+        changed = False
+        for b in live:
+            if fn.is_cleanup(b):
+                continue
+            inn = set()
+            for p, _ in fn.pred(b):
+                if p in OUT:
+                    inn |= OUT[p]
+            out = {last_in_block[b][1]} if b in last_in_block else inn
+            if inn != IN[b] or out != OUT[b]:
+                IN[b], OUT[b] = inn, out
+                changed = True
+    return IN, OUT
